@@ -3,12 +3,13 @@
    line-number + checksum firmware and FIFO channels, as a transition system whose runs are ALL interleavings of the
    print thread, the firmware and the read thread, with an arbitrary good/corrupted flag on every transmission.
    PARTIAL: (1) each _sendnext call and each line handled by _listen is one atomic step (bytecode-level races on the
-   unlocked clear / resendfrom are not modelled); (2) completeness is proved for a clean link only; with corruption it
-   is FALSE for the faithful model and for the code (C15_refuted_tail, C15_refuted_m110: the two known findings);
+   unlocked clear / resendfrom are not modelled); (2) unconditional completeness under corruption is FALSE for the faithful model and for the code (C15_refuted_tail,
+   C15_refuted_m110: the two known findings); what is proved is completeness on a clean link and, with corruption, completeness
+   unless a Resend is read after the print thread stopped (C15_complete_unless_late_resend);
    (3) frame_bytes is compared byte-for-byte with the wire on every run; what a *corrupted* frame parses to is not modelled
    beyond C15_xor_detects_single (the protocol level only needs: rejected). *)
 From Coq Require Import ZArith NArith Bool List.
-From GS Require Import model.Sender proofs.SenderProofs proofs.FrameProofs.
+From GS Require Import model.Sender proofs.SenderProofs proofs.FrameProofs proofs.SenderLive.
 Import ListNotations.
 Open Scope Z_scope.
 
@@ -39,6 +40,17 @@ Proof. exact resend_served. Qed.
 Theorem C15_window : forall (C : Type) job boot g ls s rej, run_rej C job ls (init C boot g) 0 = Some (s, rej) ->
   (length (to_fw C s) <= pot C s /\ pot C s <= 1 + rej)%nat.
 Proof. exact window. Qed.
+
+(* COMPLETENESS, characterised -- for every corruption pattern of the job lines (any subset of transmissions, repeated
+   corruption of resent lines included), every interleaving and firmware latency, provided the reset got through:
+   once the print has ended and the wire is drained the firmware has accepted every command of the job exactly once and in
+   order, UNLESS a Resend request was read after the print thread had stopped (resendfrom is then left set).  So that late
+   Resend (recorded finding b; the other recorded finding is the corrupted reset) is the only way to lose lines. *)
+Theorem C15_complete_unless_late_resend : forall (C : Type) job boot ls s, 0 <= boot ->
+  run C job ls (init C boot true) = Some s -> quiescent C s -> resendfrom C (snd_ C s) = -1 ->
+  accepted C (fw C s) = cmds_of C job.
+Proof. exact complete_unless_late_resend. Qed.
+Print Assumptions C15_complete_unless_late_resend.
 
 (* COMPLETENESS on a clean link, for every interleaving (arbitrary firmware latency) and boot state *)
 Theorem C15_complete_clean : forall (C : Type) job boot ls s, 0 <= boot -> Forall clean_label ls ->
